@@ -163,7 +163,14 @@ func (u *Unit) instrMods(ins ssa.Instruction, m *modSet, seen map[*ssa.Function]
 	case *ssa.Defer:
 		u.callMods(ins.Common(), m, seen)
 	case *ssa.Go:
-		u.callMods(ins.Common(), m, seen)
+		// the goroutine body is not interleaved: for loop havoc its own writes count like a call of the closure
+		if fn := ins.Common().StaticCallee(); fn != nil && len(fn.Blocks) > 0 {
+			u.fnMods(fn, m, seen)
+		} else if mc, ok := ins.Common().Value.(*ssa.MakeClosure); ok {
+			u.fnMods(mc.Fn.(*ssa.Function), m, seen)
+		} else {
+			u.callMods(ins.Common(), m, seen)
+		}
 	}
 }
 
